@@ -56,28 +56,42 @@ RULE = (
     "programs: modules of 2..5 functions, each one snippet whose diagnostic text contains a set, a union or a "
     "protocol (unexpected keyword arguments with 1..5 extra names; %-format with 1..5 missing keys; protocols with "
     "1..5 members against classes lacking / contradicting 0..all of them, as argument and as assignment; "
-    "`isinstance … or …` chains of 2..5 tests with reveal_type; assignments inside try/with bodies with reveal_type "
-    "afterwards; attribute access on unions; @evaluated is_of_type over library and typeshed protocols) plus plain "
-    "control snippets; small parameter values enumerated first, then seeded random ones; histories = 3 (quick) / 10 "
-    "(thorough) random orders of all programs of the run, each order checked with one shared Checker; protocol "
-    "worlds: 1..3 protocols x 1..3 classes, 1..2 members of 1..2 slots (int / protocol) against (int / str / Any / "
-    "class / missing), all worlds of the smallest shape enumerated, then random; query histories of length 1..4 in "
-    "both modes. A case is non-trivial when its diagnostics are non-empty (programs) / the world has a nested or "
-    "Any slot (worlds)"
+    "`isinstance … or …` chains of 2..5 tests over local class hierarchies and builtins on object / Any / declared "
+    "unions, with reveal_type; 1..4 assignments inside try / `with contextlib.suppress` bodies with reveal_type "
+    "afterwards; variables with 2..5 definitions (if/elif/else) narrowed and revealed) plus plain control snippets; "
+    "one-query programs (annotated assignment = normal mode, @evaluated is_of_type = exclude-Any mode) over typeshed "
+    "protocols x builtin values and over generated protocol worlds imported as a shared library module; small "
+    "parameter values enumerated first, then seeded random ones. Every program is checked fresh, again with the same "
+    "Checker, under 4 (quick) / 8 (thorough) PYTHONHASHSEED values in fresh interpreters, and at a random position of "
+    "3 (quick) / 10 (thorough) random orders of all programs of the run, each order sharing one Checker. Protocol "
+    "worlds: 1..3 generic protocols P[T] x 1..3 classes, 1..2 members of 1..2 slots (int / T / P[T] / P[int] / P[str]) "
+    "against (int / str / Any / class / missing); the 60 worlds of the smallest mutually recursive shape enumerated "
+    "(12 sampled by the seed in the quick tier), then random ones; per world one history of 7..10 queries over both "
+    "modes and both instantiations. For one-query programs only the head line of a diagnostic is compared (the detail "
+    "lines are exercised by the protocol snippets). A case is non-trivial when its diagnostics are non-empty "
+    "(programs) / the world has a nested or Any slot (worlds)"
 )
 ASSUMPTIONS = [
-    "the AST scan is syntactic: it recognises set-typed expressions by constructor, annotation and local data flow; a "
-    "set that reaches an iteration through an un-annotated parameter or attribute is not seen (the subprocess "
-    "differential search is the back-stop)",
+    "the AST scan is syntactic: it recognises set-typed expressions by constructor, annotation and local data flow, and "
+    "records a set handed to another function as one site without following it into the callee; a set that reaches an "
+    "iteration through an un-annotated parameter or attribute is not seen (the subprocess differential search is the "
+    "back-stop; it is how the definition-node sites were found)",
     "hash seeds sampled: 4 (quick) / 8 (thorough) values per run; memory-layout variation = repeated checks in one "
     "process; a dependence that needs a rarer schedule is not found",
     "`unrelated earlier programs` = other generated programs of the same run; they may import the same generated "
     "library module and the same typeshed/builtin types (programs sharing a dependency), never each other",
     "Model B abstracts one slot check `expected.can_assign(actual)` to an atom (true / false / true-unless-Any-is-"
-    "excluded / nested protocol check); bounds maps are not modelled (error or no error only)",
+    "excluded / nested protocol check); bounds maps are not modelled (error or no error only); for typeshed protocols "
+    "the atom of a pair is measured on fresh checkers (both modes) and only protocols whose verdict is the protocol "
+    "check alone are used",
     "ArgSpecCache._cached_get_argspec keys its table by the object only although the computation also receives "
     "`impl` and `is_asynq`: the memo theorem has the explicit hypothesis that these do not change the result "
     "(KeyDetermines); the generated programs never vary them",
+    "the model's fuel (number of (protocol, class) pairs + 2) stands for Python's unbounded recursion, which the "
+    "recursion guard stops after at most that many nested calls",
+    "which variant of the protocol cache key the implementation has (pinned: value only; repaired: + mode + generic "
+    "arguments / no caching under assumptions) and whether the member loop sorts is read off the source of "
+    "TypeObject.can_assign / _is_compatible_with_protocol; the Lean driver runs the matching model variant",
 ]
 TRUSTED = [
     "Spec/CacheSpec.lean: `gfpCompat`/`sem` are validated against fresh answers of the implementation on every run (stream spec)",
@@ -93,6 +107,15 @@ ORDER_CALLS = {"list": "list", "tuple": "tuple", "iter": "iter", "enumerate": "e
                "filter": "filter", "reversed": "reversed", "str": "str", "repr": "repr", "next": "next"}
 
 
+# callees that do not iterate their set argument in an order-revealing way
+PASS_OK = {"set", "frozenset", "len", "isinstance", "bool", "hash", "id", "type", "add", "update", "discard", "remove",
+           "issubset", "issuperset", "isdisjoint", "union", "intersection", "difference", "symmetric_difference",
+           "intersection_update", "difference_update", "setdefault", "get", "append", "field", "TypeObject",
+           "_ConstrainedValue", "contains", "safe_in", "is_exactly", "replace", "print", "repr", "str",
+           "any", "all", "sorted", "min", "max", "sum", "list", "tuple", "iter", "enumerate", "zip", "map", "filter",
+           "reversed", "next", "join", "extend", "from_iterable", "pop", "copy"}
+
+
 def _is_set_annotation(ann):
     if ann is None:
         return False
@@ -104,7 +127,7 @@ def _is_set_annotation(ann):
     if isinstance(ann, ast.Subscript):
         ann = ann.value
     if isinstance(ann, ast.Attribute):
-        return ann.attr in SET_TYPE_NAMES
+        return ann.attr in SET_TYPE_NAMES and not (isinstance(ann.value, ast.Name) and ann.value.id == "ast")
     return isinstance(ann, ast.Name) and ann.id in SET_TYPE_NAMES
 
 
@@ -297,6 +320,11 @@ class _FuncScan:
                                     elif pn in ORDER_FREE_CALLS:
                                         kind = ORDER_FREE_CALLS[pn]
                             self.add(kind, a)
+                elif n not in PASS_OK:
+                    # a set handed to another function: the callee may iterate it (not followed; one site per call)
+                    for a in list(node.args) + [k.value for k in node.keywords]:
+                        if self.is_set(a) and not isinstance(a, (ast.Set, ast.SetComp)):
+                            self.add("passed-to-%s" % n, a)
             elif isinstance(node, ast.Starred) and isinstance(node.ctx, ast.Load) and self.is_set(node.value):
                 self.add("star", node.value)
             elif isinstance(node, ast.FormattedValue) and self.is_set(node.value):
@@ -439,8 +467,12 @@ def finish_under_seed(job):
 
 
 # ============================================================================================ protocol worlds (Model B)
+ARGS = ["int", "str"]   # variant a of a generic protocol P[T]: T = ARGS[a]
+
+
 class World:
-    """nP protocols, nC classes; protocol i: members {name: [slot]}, slot = 'int' | ('P', j);
+    """nP generic protocols `P<i>(Protocol[T])`, nC classes; protocol i: members {name: [slot]},
+    slot = 'int' | 'T' | ('P', k, 'T' | 'int' | 'str') (= P<k>[T] / P<k>[int] / P<k>[str]);
     class j: members {name: [slot]} with slot = 'int' | 'str' | 'Any' | ('C', k). Member names are global (m0, m1, …)."""
 
     def __init__(self, protos, classes, name):
@@ -448,17 +480,19 @@ class World:
         self.module = None
 
     def source(self):
-        L = ["from typing import Any, Protocol", ""]
-        def ty(s, kind):
+        L = ["from typing import Any, Protocol, TypeVar", "", 'T = TypeVar("T")', ""]
+
+        def ty(s):
             if isinstance(s, tuple):
-                return '"%s%d"' % (s[0], s[1])
+                return '"P%d[%s]"' % (s[1], s[2]) if s[0] == "P" else '"C%d"' % s[1]
             return s
+
         def ret(slots):
             if len(slots) == 1:
-                return ty(slots[0], None)
-            return "tuple[%s]" % ", ".join(ty(s, None) for s in slots)
+                return ty(slots[0])
+            return "tuple[%s]" % ", ".join(ty(s) for s in slots)
         for i, mem in enumerate(self.protos):
-            L.append("class P%d(Protocol):" % i)
+            L.append("class P%d(Protocol[T]):" % i)
             for m, slots in mem.items():
                 L.append("    def %s(self) -> %s: ..." % (m, ret(slots)))
             L.append("")
@@ -482,16 +516,21 @@ class World:
         return self.module
 
     @staticmethod
-    def slot_atom(e, t):
-        if e == "int":
-            return {"int": "T", "str": "F", "Any": "A"}.get(t, "F") if not isinstance(t, tuple) else "F"
-        # e = ('P', k)
+    def slot_atom(e, t, a):
+        if e == "T":
+            e = ARGS[a]
+        if e in ("int", "str"):
+            if isinstance(t, tuple):
+                return "F"
+            return "A" if t == "Any" else "T" if t == e else "F"
+        # e = ('P', k, mode)
+        a2 = a if e[2] == "T" else ARGS.index(e[2])
         if isinstance(t, tuple):
-            return "S%d.%d" % (e[1], t[1])
+            return "S%d.%d.%d" % (e[1], a2, t[1])
         return "A" if t == "Any" else "F"
 
-    def req(self, i, j, member_order):
-        """Members of protocol i against class j, in the given iteration order: list of list of atoms."""
+    def req(self, i, a, j, member_order):
+        """Members of protocol i (variant a) against class j, in the given iteration order: list of list of atoms."""
         out = []
         for m in member_order:
             es = self.protos[i][m]
@@ -501,15 +540,16 @@ class World:
             elif ts is None or len(ts) != len(es):
                 out.append(["F"])
             else:
-                out.append([self.slot_atom(e, t) for e, t in zip(es, ts)])
+                out.append([self.slot_atom(e, t, a) for e, t in zip(es, ts)])
         return out
 
     def reqs_text(self, orders):
         parts = []
         for i in range(len(self.protos)):
-            for j in range(len(self.classes)):
-                ms = self.req(i, j, orders[i])
-                parts.append("%d.%d:%s" % (i, j, "/".join("+".join(m) for m in ms)))
+            for a in range(len(ARGS)):
+                for j in range(len(self.classes)):
+                    ms = self.req(i, a, j, orders[i])
+                    parts.append("%d.%d.%d:%s" % (i, a, j, "/".join("+".join(m) for m in ms)))
         return ";".join(parts)
 
     def ranks(self, orders):
@@ -517,7 +557,14 @@ class World:
         edges = {}
         for i in range(len(self.protos)):
             for j in range(len(self.classes)):
-                edges[(i, j)] = [tuple(int(x) for x in a[1:].split(".")) for m in self.req(i, j, orders[i]) for a in m if a[0] == "S"]
+                e = []
+                for a in range(len(ARGS)):
+                    for m in self.req(i, a, j, orders[i]):
+                        for at in m:
+                            if at[0] == "S":
+                                x = [int(z) for z in at[1:].split(".")]
+                                e.append((x[0], x[2]))
+                edges[(i, j)] = e
         rank, state = {}, {}
 
         def visit(n):
@@ -550,7 +597,8 @@ def random_world(rng, name, np_max=3, nc_max=3):
     for i in range(nP):
         mem = {}
         for m in rng.sample(names, rng.randint(1, 2)):
-            mem[m] = [("P", rng.randrange(nP)) if rng.random() < 0.55 else "int" for _ in range(rng.randint(1, 2))]
+            mem[m] = [("P", rng.randrange(nP), rng.choice(["T", "T", "int", "str"])) if rng.random() < 0.5
+                      else rng.choice(["int", "T", "T"]) for _ in range(rng.randint(1, 2))]
         protos.append(mem)
     classes = []
     for j in range(nC):
@@ -566,7 +614,7 @@ def random_world(rng, name, np_max=3, nc_max=3):
 
 
 def small_worlds(prefix):
-    """The smallest interesting shape, enumerated: P0 {m0: [P1|int, int]}, P1 {m0: [P0]} against two classes whose m0
+    """The smallest interesting shape, enumerated: P0 {m0: [P1[T]|…, T]}, P1 {m0: [P0[T]]} against two classes whose m0
     slots range over int / str / Any / C0 / C1."""
     out = []
     ts = ["int", "str", "Any", ("C", 0), ("C", 1)]
@@ -574,7 +622,7 @@ def small_worlds(prefix):
     for a in ts:
         for b in ["int", "str", "Any"]:
             for c in [("C", 0), ("C", 1), "Any", "int"]:
-                protos = [{"m0": [("P", 1), "int"]}, {"m0": [("P", 0)]}]
+                protos = [{"m0": [("P", 1, "T"), "T"]}, {"m0": [("P", 0, "T" if k % 3 else "int")]}]
                 classes = [{"m0": [a, b]}, {"m0": [c]}]
                 out.append(World(protos, classes, "%s_s%d" % (prefix, k)))
                 k += 1
@@ -582,16 +630,24 @@ def small_worlds(prefix):
 
 
 def member_orders(world, checker):
-    """Iteration order of `protocol_members` of every protocol of the world in this process."""
-    return [list(checker.make_type_object(getattr(world.module, "P%d" % i)).protocol_members) for i in range(len(world.protos))]
+    """The order in which `_is_compatible_with_protocol` visits the members of every protocol of the world in this
+    process: the iteration order of the `protocol_members` set, or the sorted order if the loop sorts them."""
+    import inspect
+    from pyanalyze.type_object import TypeObject
+    srt = "sorted(self.protocol_members)" in inspect.getsource(TypeObject._is_compatible_with_protocol)
+    out = []
+    for i in range(len(world.protos)):
+        ms = checker.make_type_object(getattr(world.module, "P%d" % i)).protocol_members
+        out.append(sorted(ms) if srt else list(ms))
+    return out
 
 
 def api_history(world, checker, queries):
-    """Answers of TypedValue(P).can_assign(TypedValue(C)) along a history; query = (ex, i, j)."""
-    from pyanalyze.value import CanAssignError, TypedValue
+    """Answers of GenericValue(P, [arg]).can_assign(TypedValue(C)) along a history; query = (ex, i, a, j)."""
+    from pyanalyze.value import CanAssignError, GenericValue, TypedValue
     out = []
-    for ex, i, j in queries:
-        left = TypedValue(getattr(world.module, "P%d" % i))
+    for ex, i, a, j in queries:
+        left = GenericValue(getattr(world.module, "P%d" % i), [TypedValue(int if a == 0 else str)])
         right = TypedValue(getattr(world.module, "C%d" % j))
         try:
             if ex:
@@ -606,13 +662,27 @@ def api_history(world, checker, queries):
 
 
 def qtext(q):
-    return "%s%d.%d" % ("x" if q[0] else "n", q[1], q[2])
+    return "%s%d.%d.%d" % ("x" if q[0] else "n", q[1], q[2], q[3])
+
+
+def impl_variant():
+    """Which repairs of the protocol cache key the implementation under check has, read off the source of
+    TypeObject.can_assign: mode + generic arguments in the key / no caching while assumptions are in force. The Lean
+    driver runs the matching variant of the model (`check` = 000, `check2` otherwise)."""
+    import inspect
+    from pyanalyze.type_object import TypeObject
+    src = inspect.getsource(TypeObject.can_assign)
+    mk = "should_exclude_any()" in src
+    ak = bool(re.search(r"cache_key\s*=\s*\(\s*self_val", src))
+    to = "has_assumed_compatibilities" in src
+    return "%d%d%d" % (mk, ak, to)
 
 
 def hist_line(world, orders, ranks, hist, q):
     nP, nC = len(world.protos), len(world.classes)
     rk = "" if ranks is None else ",".join("%d.%d=%d" % (p, c, r) for (p, c), r in sorted(ranks.items()))
-    return "\t".join(["hist", world.reqs_text(orders), "", rk, str(nP * nC + 2), ",".join(qtext(x) for x in hist), qtext(q)])
+    return "\t".join(["hist", world.reqs_text(orders), "", rk, str(nP * nC + 2), ",".join(qtext(x) for x in hist), qtext(q),
+                      impl_variant()])
 
 
 def parse_kv(line):
@@ -622,11 +692,15 @@ def parse_kv(line):
 # ============================================================================================ generated programs
 HEADER = ("from typing import Any, Protocol, Union\nfrom typing_extensions import reveal_type\nimport contextlib\n"
           "from collections.abc import Hashable, Sized, Iterable, Container, Collection, Reversible\n"
-          "from typing import SupportsInt, SupportsFloat, SupportsAbs, SupportsIndex\n"
+          "from typing import SupportsInt, SupportsFloat, SupportsAbs, SupportsIndex, SupportsRound, SupportsComplex, SupportsBytes\n"
           "from pyanalyze.extensions import evaluated, is_of_type\n")
 NAMEPOOL = ["alpha", "beta", "gamma", "delta", "eps", "zeta", "eta", "theta", "iota", "kappa", "lam", "mu", "nu", "xi"]
-BUILTIN_PROTOS = ["Hashable", "Sized", "Iterable", "Container", "Collection", "Reversible", "SupportsInt",
-                  "SupportsFloat", "SupportsAbs", "SupportsIndex"]
+# Typeshed protocols whose verdict is the protocol check alone. (For Iterable[T] / Collection[T] / … and a value
+# whose class lists them as nominal generic bases, GenericValue.can_assign also compares the generic arguments through
+# the generic bases, outside the protocol check: the atom model of a pair would be too coarse.)
+BUILTIN_PROTOS = ["Hashable", "Sized", "SupportsInt", "SupportsFloat", "SupportsIndex", "SupportsAbs[int]",
+                  "SupportsAbs[str]", "SupportsAbs[float]", "SupportsRound[int]", "SupportsRound[str]", "SupportsComplex",
+                  "SupportsBytes"]
 BUILTIN_VALUES = ["dict[int, str]", "list[int]", "int", "str", "float", "bytes", "set[int]", "tuple[int, ...]", "object",
                   "bytearray", "complex", "range"]
 
@@ -687,7 +761,18 @@ def snip_try(k, n, how):
     else:
         L += ["    with contextlib.suppress(Exception):"] + ["        x = T%d_%d()" % (k, i) for i in range(1, n + 1)]
     L += ["    reveal_type(x)"]
-    return Snippet("try", L, n=n, k=k)
+    return Snippet("try", L, n=n, k=k, how=how)
+
+
+def snip_defnodes(k, n, test):
+    """A variable with n+1 definitions (if / elif / else), then narrowed: the constraint's `definition_nodes` frozenset."""
+    L = ["class D%d_%d: pass" % (k, i) for i in range(n + 1)]
+    L += ["def f%d(c: int) -> None:" % k, "    if c == 0:", "        x = D%d_0()" % k]
+    for i in range(1, n):
+        L += ["    elif c == %d:" % i, "        x = D%d_%d()" % (k, i)]
+    L += ["    else:", "        x = D%d_%d()" % (k, n)]
+    L += ["    if %s:" % ("isinstance(x, object)" if test == 0 else "x is not None"), "        reveal_type(x)"]
+    return Snippet("defnodes", L, n=n, k=k)
 
 
 def snip_control(k, which):
@@ -706,10 +791,10 @@ def snip_mode(k, proto, value, ex):
     return Snippet("mode", L, world="builtin", proto=proto, value=value, ex=ex)
 
 
-def snip_world(k, world, i, j, ex):
-    p, c = "%s.P%d" % (world.name, i), "%s.C%d" % (world.name, j)
+def snip_world(k, world, i, a, j, ex):
+    p, c = "%s.P%d[%s]" % (world.name, i, ARGS[a]), "%s.C%d" % (world.name, j)
     s = snip_mode(k, p, c, ex)
-    s.info.update(world=world.name, i=i, j=j)
+    s.info.update(world=world.name, i=i, a=a, j=j)
     return s
 
 
@@ -719,7 +804,7 @@ class Program:
         lines = HEADER.split("\n")[:-1] + ["import %s" % m for m in imports]
         for s in snippets:
             s.first = len(lines) + 1
-            lines += s.lines
+            lines += [x for l in s.lines for x in l.split("\n")]
             s.last = len(lines)
         self.src = "\n".join(lines) + "\n"
 
@@ -747,6 +832,8 @@ def gen_programs(ctx, worlds):
         snips.append(snip_or(next(k), ["OA", "OB"], decl, [("OA", None), ("OB", None)]))
     snips.append(snip_or(next(k), ["int", "str", "bytes"], "object", []))
     snips.append(snip_try(next(k), 2, "with"))
+    for n in (1, 2):
+        snips.append(snip_defnodes(next(k), n, n % 2))
     for w in range(3):
         snips.append(snip_control(next(k), w))
     # --- seeded random
@@ -769,12 +856,14 @@ def gen_programs(ctx, worlds):
             for i in range(nc):
                 classes.append(("O%d_%d" % (kk, i), rng.choice([c[0] for c in classes]) if classes and rng.random() < 0.3 else None))
             pool = [c[0] for c in classes] + (["int", "str"] if rng.random() < 0.3 else [])
-            tests = rng.sample(pool, rng.randint(2, min(5, len(pool))))
             d = rng.random()
             decl = "object" if d < 0.5 else "Any" if d < 0.65 else rng.sample([c[0] for c in classes], rng.randint(1, nc))
+            tests = rng.sample(pool, rng.randint(2, min(5 if isinstance(decl, str) else 3, len(pool))))
             snips.append(snip_or(kk, tests, decl, classes))
-        elif r < 0.9:
+        elif r < 0.86:
             snips.append(snip_try(kk, rng.randint(1, 4), rng.choice(["try", "try", "with"])))
+        elif r < 0.93:
+            snips.append(snip_defnodes(kk, rng.randint(1, 4), rng.randrange(2)))
         else:
             snips.append(snip_control(kk, rng.randrange(6)))
     rng.shuffle(snips)
@@ -786,7 +875,7 @@ def gen_programs(ctx, worlds):
         i += n
     # --- history-sensitive programs: one protocol query each, over typeshed types and over the generated worlds
     kk = itertools.count(100000)
-    mode_pairs = [("Hashable", "dict[int, str]"), ("Hashable", "list[int]"), ("Sized", "list[int]"), ("SupportsInt", "str")]
+    mode_pairs = [("Hashable", "dict[int, str]"), ("SupportsAbs[int]", "int"), ("SupportsAbs[str]", "int"), ("Sized", "list[int]")]
     for _ in range(ctx.n(4, 40)):
         mode_pairs.append((rng.choice(BUILTIN_PROTOS), rng.choice(BUILTIN_VALUES)))
     for p, v in mode_pairs:
@@ -796,7 +885,7 @@ def gen_programs(ctx, worlds):
         nq = ctx.n(4, 6)
         for _ in range(nq):
             i, j = rng.randrange(len(w.protos)), rng.randrange(len(w.classes))
-            programs.append(Program([snip_world(next(kk), w, i, j, rng.random() < 0.35)], imports=[w.name]))
+            programs.append(Program([snip_world(next(kk), w, i, int(rng.random() < 0.3), j, rng.random() < 0.35)], imports=[w.name]))
     return programs
 
 
@@ -882,20 +971,42 @@ def explain_requests(s, text, B):
         ids, subs = or_universe(s)
         names = {v: (k if k in BUILTIN_IDS else "<mod>." + k) for k, v in ids.items()}
         decl = s.info["declared"]
-        vals = "0" if decl == "object" else "any" if decl == "Any" else ",".join(str(ids[n]) for n in decl)
         tests = [ids[t] for t in s.info["tests"]]
         subtxt = ",".join("%d<%d" % p for p in sorted(subs))
-        idxs = [B.add("ornarrow", subtxt, vals, ",".join(map(str, o)), ",".join(map(str, tests)))
-                for o in itertools.permutations(tests)]
+        issub = lambda a, b: a == b or (a, b) in subs
+        if isinstance(decl, str):
+            node_vals = {(): "0" if decl == "object" else "any"}   # every definition node has the same single member
+        else:
+            # visit_BoolOp leaves one definition node per operand: the declared union narrowed by the negation of the
+            # operands to its left; the `if` constrains the frozenset of these nodes (site `siteDefNodes`)
+            nodes = [[ids[n] for n in decl if not any(issub(ids[n], tests[j]) for j in range(i))] for i in range(len(tests))]
+            node_vals = {}
+            for perm in itertools.permutations(range(len(nodes))):
+                node_vals.setdefault(",".join(str(x) for i in perm for x in nodes[i]), perm)
+            node_vals = {v: k for k, v in node_vals.items()}
+        idxs = [(np, B.add("ornarrow", subtxt, vals, ",".join(map(str, o)), ",".join(map(str, tests))))
+                for np, vals in node_vals.items() for o in itertools.permutations(tests)]
 
         def done():
-            for i in idxs:
+            hits = set()
+            for np, i in idxs:
                 kv = B.kv(i)
                 out = " | ".join(names[int(x)] if x != "any" else "Any" for x in kv["out"].split(",")) if kv["out"] else "Never"
                 if out == m.group(1):
-                    return True, B.lines[i]
-            return False, "no order of the tests gives %r" % m.group(1)
+                    hits.add(np)
+            if hits:
+                return True, "explained", hits
+            return False, "no order of the tests / definition nodes gives %r" % m.group(1)
         return done
+    if s.kind == "defnodes":
+        m = re.search(r"Revealed type is '(.*)' \(code: reveal_type\)$", first)
+        pat = re.compile(r"<mod>\.D%d_(\d+)$" % s.info["k"])
+        parts = m.group(1).split(" | ") if m else []
+        if not m or not all(pat.match(x) for x in parts):
+            return lambda: (False, "unexpected message shape")
+        got = [int(pat.match(x).group(1)) for x in parts]
+        i = B.add("defnodes", ",".join(map(str, got)), ",".join(map(str, range(s.info["n"] + 1))))
+        return lambda: (B.kv(i)["perm"] == "1" and B.kv(i)["out"] == ",".join(map(str, got)), B.out[i])
     if s.kind == "try":
         m = re.search(r"Revealed type is '(.*)' \(code: reveal_type\)$", first)
         pat = re.compile(r"<mod>\.T%d_(\d+)$" % s.info["k"])
@@ -903,13 +1014,22 @@ def explain_requests(s, text, B):
         if not m or not all(pat.match(x) for x in parts):
             return lambda: (False, "unexpected message shape")
         got = [int(pat.match(x).group(1)) for x in parts]
-        i = B.add("try", "0", ",".join(map(str, got[1:])), ",".join(map(str, range(1, s.info["n"] + 1))))
+        n = s.info["n"]
+        # `with`: the value before the block, then the block's assignments in set order (suppressing_subscope);
+        # `try`: visit_Try puts the end of the try body (the last assignment) in front of that
+        if s.info["how"] == "try":
+            pre, order = [n, 0], got[2:] + [n]   # where the set put n is not observable: a later duplicate is dropped
+            if got[:2] != pre:
+                return lambda: (False, "the union does not start with the last assignment and the value before the block")
+        else:
+            pre, order = [0], got[1:]
+        i = B.add("try", ",".join(map(str, pre)), ",".join(map(str, order)), ",".join(map(str, range(1, n + 1))))
         return lambda: (B.kv(i)["perm"] == "1" and B.kv(i)["out"] == ",".join(map(str, got)), B.out[i])
     return None
 
 
 ORDER_CLASS = {"kwargs": "joinExtraKwargs", "keys": "joinKeysLeft", "proto": "protocolMembersOrder",
-               "or": "orConstraintOrder", "try": "tryDefNodeOrder"}
+               "or": "orConstraintOrder", "try": "tryDefNodeOrder", "defnodes": "defNodeSetOrder"}
 
 
 def answer_bit(prog, rendering):
@@ -1063,7 +1183,7 @@ def api_memo(ctx, B, post):
                     b.typ, b.base_classes, b.is_protocol, b.protocol_members, b.artificial_bases):
                 ctx.candidate({"table": "type_object_cache", "history": [repr(type_keys[x]) for x in qs], "key": repr(key)},
                               "make_type_object answers differently after a history than on a fresh checker", cls=None, stream="memo")
-        i = B.add("memo", ",".join(map(str, range(len(type_keys)))), "", ",".join(map(str, qs)))
+        i = B.add("memo", ",".join(map(str, range(len(type_keys)))), "", ",".join(map(str, qs)), "")
         sz = len(chk.type_object_cache) - size0
 
         def c1(i=i, trace=trace, sz=sz, qs=qs):
@@ -1078,11 +1198,13 @@ def api_memo(ctx, B, post):
         qs = [rng.randrange(len(obj_keys)) for _ in range(rng.randint(3, 12))]
         trace = []
         nones = set()
-        hashable = []
+        hashable, initial = [], []
         for x, o in enumerate(obj_keys):
             try:
                 hash(o)
                 hashable.append(x)
+                if o in asc.known_argspecs:
+                    initial.append(x)   # signatures registered when the ArgSpecCache is built
             except TypeError:
                 pass
         for q in qs:
@@ -1103,7 +1225,7 @@ def api_memo(ctx, B, post):
                 ctx.candidate({"table": "known_argspecs", "history": [repr(obj_keys[x]) for x in qs], "key": repr(o)},
                               "get_argspec answers differently after a history than on a fresh checker (%s / %s)" % (a, b),
                               cls=None, stream="memo")
-        i = B.add("memo", ",".join(map(str, hashable)), ",".join(map(str, sorted(nones))), ",".join(map(str, qs)))
+        i = B.add("memo", ",".join(map(str, hashable)), ",".join(map(str, sorted(nones))), ",".join(map(str, qs)), ",".join(map(str, initial)))
 
         def c2(i=i, trace=trace, qs=qs):
             kv = B.kv(i)
@@ -1117,7 +1239,7 @@ def api_memo(ctx, B, post):
             a = asc._get_generic_bases_cached(key)
             b = fresh.arg_spec_cache._get_generic_bases_cached(key)
             ctx.count(1, memo_generic_bases=1)
-            if a != b:
+            if repr(a) != repr(b):   # typeshed TypeVars are per-TypeshedFinder objects: compare the rendering
                 ctx.candidate({"table": "generic_bases_cache", "key": repr(key)},
                               "generic bases differ after a history", cls=None, stream="memo")
 
@@ -1136,7 +1258,7 @@ def api_worlds(ctx, B, post, worlds):
         orders = member_orders(w, chk)
         ranks = w.ranks(orders)
         L = ctx.n(7, 10)
-        qs = [(rng.random() < 0.35, rng.randrange(len(w.protos)), rng.randrange(len(w.classes))) for _ in range(L)]
+        qs = [(rng.random() < 0.35, rng.randrange(len(w.protos)), int(rng.random() < 0.3), rng.randrange(len(w.classes))) for _ in range(L)]
         got = api_history(w, chk, qs)
         # answers of a checker whose protocol caches are emptied before every query (cheap stand-in for a fresh one;
         # every history dependence found is re-confirmed below with a really fresh Checker)
@@ -1174,15 +1296,16 @@ def api_worlds(ctx, B, post, worlds):
                     continue
                 cls = kvn.get("D")
                 ctx.candidate(dict(case0, history=[qtext(q) for q in qs[:n]], query=qtext(qs[n]), kind="proto-api"),
-                              "TypedValue(P%d).can_assign(C%d)%s answers %s after the history but %s on a fresh checker" % (
-                                  qs[n][1], qs[n][2], " under set_exclude_any" if qs[n][0] else "", got[n], really),
+                              "P%d[%s].can_assign(C%d)%s answers %s after the history but %s on a fresh checker" % (
+                                  qs[n][1], ARGS[qs[n][2]], qs[n][3], " under set_exclude_any" if qs[n][0] else "", got[n], really),
                               cls=cls if cls not in (None, "-") else None, conforms=conforms, stream="proto")
         post.append(chk1)
         # spec: fresh answer = greatest fixed point (and = sem when well-founded), per pair and mode
         for ex in (False, True):
             for pi in range(len(w.protos)):
+              for aa in range(len(ARGS)):
                 for cj in range(len(w.classes)):
-                    q = (ex, pi, cj)
+                    q = (ex, pi, aa, cj)
                     if q not in qs:
                         continue
                     j = B.add(*hist_line(w, orders, ranks, [], q).split("\t"))
@@ -1221,7 +1344,8 @@ def e2e(ctx, B, post, worlds, with_model):
     srcs = [p.src for p in programs]
     seeds = [0] + [rng.randrange(1, 2 ** 32) for _ in range(ctx.n(3, 7))]
     ctx.extra["hash_seeds"] = seeds
-    jobs = [start_under_seed(ctx, srcs, s, "e2e") for s in seeds]
+    ctx._c10_runs = getattr(ctx, "_c10_runs", 0) + 1   # run() is called again for the widened search
+    jobs = [start_under_seed(ctx, srcs, s, "e2e%d" % ctx._c10_runs) for s in seeds]
     # (ii) fresh in this process, and immediately again with the same Checker
     base, runs = [], []   # runs: (label, program index, rendering, history info)
     for n, p in enumerate(programs):
@@ -1244,6 +1368,13 @@ def e2e(ctx, B, post, worlds, with_model):
             runs.append(("seed%d" % job[2], n, r, None))
     ctx.extra["programs"] = len(programs)
     ctx.extra["renderings_compared"] = len(runs)
+    # one-query programs over protocol worlds / typeshed protocols: the detail lines (which member fails first) are
+    # the business of the `proto` snippets; here only the head line of every diagnostic is compared
+    head = lambda r: [[d[0], d[1], d[2], d[3].split("\n")[0]] for d in r]
+    for n, p in enumerate(programs):
+        if p.snippets[0].kind == "mode":
+            base[n] = head(base[n])
+    runs = [(label, n, head(r) if programs[n].snippets[0].kind == "mode" else r, h) for label, n, r, h in runs]
 
     # ---- explain every distinct (snippet, text) with the site models
     explained = {}
@@ -1253,7 +1384,7 @@ def e2e(ctx, B, post, worlds, with_model):
                 s = programs[n].snippet_at(d[0])
                 if s is None or s.kind not in ORDER_CLASS:
                     continue
-                if s.kind in ("or", "try") and d[2] != "reveal_type":
+                if s.kind in ("or", "try", "defnodes") and d[2] != "reveal_type":
                     continue
                 if s.kind in ("kwargs",) and d[2] != "incompatible_call":
                     continue
@@ -1276,25 +1407,32 @@ def e2e(ctx, B, post, worlds, with_model):
     for name, ns in by_world.items():
         if name == "builtin":
             pairs = sorted({(programs[n].snippets[0].info["proto"], programs[n].snippets[0].info["value"]) for n in ns})
-            pid = {p: i for i, p in enumerate(sorted({p for p, _ in pairs}))}
+            split = lambda p: (p.split("[")[0], p[len(p.split("[")[0]):])
+            pid = {b: i for i, b in enumerate(sorted({split(p)[0] for p, _ in pairs}))}
+            aid = {}
+            for p, _ in pairs:
+                b, arg = split(p)
+                aid.setdefault(b, {}).setdefault(arg, len(aid[b]))
             vid = {v: i for i, v in enumerate(sorted({v for _, v in pairs}))}
+            key = lambda p, v: "%d.%d.%d" % (pid[split(p)[0]], aid[split(p)[0]][split(p)[1]], vid[v])
             reqs, ok = [], {}
             for p, v in pairs:
                 fn = {programs[n].snippets[0].info["ex"]: answer_bit(programs[n], base[n]) for n in ns
                       if (programs[n].snippets[0].info["proto"], programs[n].snippets[0].info["value"]) == (p, v)}
                 atom = {("1", "1"): "T", ("1", "0"): "A", ("0", "0"): "F"}.get((fn.get(False), fn.get(True)))
                 ok[(p, v)] = atom is not None
-                reqs.append("%d.%d:%s" % (pid[p], vid[v], atom or "F"))
-            q = {n: "%s%d.%d" % ("x" if programs[n].snippets[0].info["ex"] else "n", pid[programs[n].snippets[0].info["proto"]],
-                                 vid[programs[n].snippets[0].info["value"]]) for n in ns}
-            rk = ",".join("%d.%d=0" % (pid[p], vid[v]) for p, v in pairs)
+                reqs.append("%s:%s" % (key(p, v), atom or "F"))
+            q = {n: ("x" if programs[n].snippets[0].info["ex"] else "n") + key(programs[n].snippets[0].info["proto"],
+                                                                             programs[n].snippets[0].info["value"]) for n in ns}
+            rk = ",".join("%d.%d=0" % (pid[split(p)[0]], vid[v]) for p, v in pairs)
             facts[name] = (";".join(reqs), rk, 3, q, {n: ok[(programs[n].snippets[0].info["proto"], programs[n].snippets[0].info["value"])] for n in ns})
         else:
             w = wmap[name]
             mo = member_orders(w, chk0)
             ranks = w.ranks(mo)
             rk = "" if ranks is None else ",".join("%d.%d=%d" % (p, c, r) for (p, c), r in sorted(ranks.items()))
-            q = {n: qtext((programs[n].snippets[0].info["ex"], programs[n].snippets[0].info["i"], programs[n].snippets[0].info["j"])) for n in ns}
+            q = {n: qtext((programs[n].snippets[0].info["ex"], programs[n].snippets[0].info["i"], programs[n].snippets[0].info["a"],
+                           programs[n].snippets[0].info["j"])) for n in ns}
             facts[name] = (w.reqs_text(mo), rk, len(w.protos) * len(w.classes) + 2, q, {n: True for n in ns})
     hist_req = {}
     if with_model:
@@ -1308,14 +1446,16 @@ def e2e(ctx, B, post, worlds, with_model):
             else:
                 h, pos = hinfo
                 hist = [q[m] for m in orders[h][:pos] if m in q]
-            hist_req[(label, n)] = (B.add("hist", reqs, "", rk, fuel, ",".join(hist), q[n]), hist)
+            hist_req[(label, n)] = (B.add("hist", reqs, "", rk, fuel, ",".join(hist), q[n], impl_variant()), hist)
 
     def evaluate():
         # correspondence of the site models on every distinct observed text
-        ok_text = {}
+        ok_text, ok_nodes = {}, {}
         for key, (fn, kind, text, label) in explained.items():
-            good, note = fn() if fn is not None else (False, "no model")
+            res = fn() if fn is not None else (False, "no model")
+            good, note = res[0], res[1]
             ok_text[key] = good
+            ok_nodes[key] = res[2] if len(res) > 2 else None
             ctx.corr("site-" + kind)
             if not good:
                 ctx.disagree("site-" + kind, {"program": programs[key[0]].src, "text": text, "run": label}, text, note)
@@ -1375,12 +1515,22 @@ def e2e(ctx, B, post, worlds, with_model):
             for line, col, ta, tb in diffs:
                 s = p.snippet_at(line)
                 cls, conforms = None, True
+                if s is not None and s.kind == "mode" and with_model:
+                    cls, conforms = ("pending", "proto", ta, tb), True   # typeshed protocol: member list in the head line
                 if s is not None and s.kind in ORDER_CLASS and with_model:
                     # both texts must be possible outputs of the site model, and the difference order-only (Lean)
                     ka = [k for k in explained if k[0] == n and k[1] == id(s) and k[2] in ta]
                     kb = [k for k in explained if k[0] == n and k[1] == id(s) and k[2] in tb]
                     conforms = bool(ka) and bool(kb) and all(ok_text[k] for k in ka + kb)
-                    cls = ("pending", s.kind, ta, tb)
+                    hint = s.kind
+                    if s.kind == "or" and conforms and not isinstance(s.info["declared"], str):
+                        na = set().union(*[ok_nodes[k] or set() for k in ka])
+                        nb = set().union(*[ok_nodes[k] or set() for k in kb])
+                        if not (na & nb):
+                            hint = "defnodes"   # no common order of the definition nodes explains both renderings
+                    cls = ("pending", hint, ta, tb)
+                if cls is None and os.environ.get("C10_DEBUG"):
+                    print("DEBUG2", line, s and s.kind, s and (s.first, s.last), with_model, [(x.kind, x.first, x.last) for x in p.snippets], file=sys.stderr)
                 key = (s.kind if s else None, label[:4])
                 if key in seen_cand and cls is not None:
                     continue
@@ -1404,8 +1554,8 @@ def world_from_source(ctx, src, name):
 
 
 def parse_q(t):
-    a, b = t[1:].split(".")
-    return (t[0] == "x", int(a), int(b))
+    a, b, c = t[1:].split(".")
+    return (t[0] == "x", int(a), int(b), int(c))
 
 
 def replay_proto_api(ctx, case, name="c10replay"):
@@ -1425,20 +1575,34 @@ def check_with_history(history, src, times=1):
 
 
 def run_corpus(ctx, B, post, with_model):
+    """corpus/C10.jsonl: witnesses of the listed classes and past disagreements.
+    kind proto-api: {world (library source), reqs, ranks, fuel, history, query}: replayed on the API, classified by the
+      Lean history model;
+    kind program: {src, history: [src…], lib: {name, src}?, hint?, times?, seeds?, model: {reqs, ranks, fuel, history,
+      query}?}: checked fresh, after the history / repeatedly (times) / under three hash seeds (seeds); an order-only
+      difference is classified by Lean `orderClass`, a history difference by the Lean history model on `model`."""
     path = os.path.join(lean.HERE, "corpus", "C10.jsonl")
     if not os.path.exists(path):
         return
-    for n, l in enumerate(open(path)):
-        l = l.strip()
-        if not l:
-            continue
-        e = json.loads(l)
+    entries = [json.loads(l) for l in open(path) if l.strip()]
+    for e in entries:
+        if e.get("lib"):
+            with open(os.path.join(ctx.scratch, e["lib"]["name"] + ".py"), "w") as f:
+                f.write(e["lib"]["src"])
+            if ctx.scratch not in sys.path:
+                sys.path.insert(0, ctx.scratch)
+            importlib.invalidate_caches()
+    seeded = [e for e in entries if e["kind"] == "program" and e.get("seeds")]
+    jobs = [start_under_seed(ctx, [e["src"] for e in seeded], s, "corpus%d" % (getattr(ctx, "_c10_runs", 0) + 1))
+            for s in (1, 2, 3)] if seeded else []
+    for n, e in enumerate(entries):
         ctx.count(1, corpus=1)
+        ctx.nontriv("corpus|%d" % n)
         if e["kind"] == "proto-api":
             after, fresh = replay_proto_api(ctx, e, "c10corpus%d" % n)
-            ctx.nontriv("corpus|%d" % n)
             if after != fresh:
-                i = B.add("hist", e["reqs"], "", e.get("ranks", ""), e.get("fuel", 8), ",".join(e["history"]), e["query"]) if with_model else None
+                i = B.add("hist", e["reqs"], "", e.get("ranks", ""), e.get("fuel", 8), ",".join(e["history"]), e["query"],
+                          impl_variant()) if with_model else None
 
                 def c(i=i, e=e, after=after, fresh=fresh):
                     cls, conforms = None, True
@@ -1452,27 +1616,43 @@ def run_corpus(ctx, B, post, with_model):
                 post.append(c)
         elif e["kind"] == "program":
             fresh = check_program(e["src"], new_kwargs())
-            others = check_with_history(e.get("history", []), e["src"], times=e.get("times", 1))
-            ctx.nontriv("corpus|%d" % n)
-            for r in others:
-                if r != fresh:
-                    same, diffs = diff_positions(fresh, r)
-                    hint = e.get("hint", "")
-                    if same and diffs and with_model:
-                        i = B.add("cls", hint, diffs[0][2], diffs[0][3])
-                    else:
-                        i = None
+            others = [("history" if e.get("history") else "repeat", r)
+                      for r in check_with_history(e.get("history", []), e["src"], times=e.get("times", 1))]
+            e["_fresh"], e["_others"] = fresh, others
+    for job in jobs:
+        res = finish_under_seed(job)
+        for e, r in zip(seeded, res):
+            e["_others"].append(("seed%d" % job[2], r))
+    for e in entries:
+        if e["kind"] != "program":
+            continue
+        fresh = e["_fresh"]
+        for label, r in e["_others"]:
+            if r == fresh:
+                continue
+            same, diffs = diff_positions(fresh, r)
+            i = j = None
+            if with_model:
+                if same and diffs:
+                    i = B.add("cls", e.get("hint", ""), diffs[0][2], diffs[0][3])
+                if e.get("model"):
+                    m = e["model"]
+                    j = B.add("hist", m["reqs"], "", m.get("ranks", ""), m.get("fuel", 8), ",".join(m["history"]), m["query"],
+                              impl_variant())
 
-                    def c(i=i, e=e, fresh=fresh, r=r):
-                        cls = e.get("cls")
-                        if i is not None:
-                            d = B.kv(i).get("D")
-                            cls = d if d not in (None, "-") else None
-                        ctx.candidate({"program": e["src"], "history": e.get("history", []), "fresh": fresh, "other": r,
-                                       "run": "history" if e.get("history") else "repeat"},
-                                      "corpus: diagnostics differ from those of a fresh check", cls=cls, conforms=True, stream="corpus")
-                    post.append(c)
-                    break
+            def c(i=i, j=j, e=e, fresh=fresh, r=r, label=label):
+                cls, conforms = None, True
+                if i is not None and B.kv(i).get("D") not in (None, "-"):
+                    cls = B.kv(i).get("D")
+                elif j is not None and label == "history":
+                    kv = B.kv(j)
+                    cls = kv.get("D") if kv.get("D") not in (None, "-") else None
+                    conforms = kv.get("ans", "?")[-1:] != kv.get("fresh")   # the model shows the same dependence
+                ctx.candidate({"program": e["src"], "history": e.get("history", []), "fresh": fresh, "other": r, "run": label},
+                              "corpus: diagnostics differ from those of a fresh check (%s)" % label, cls=cls,
+                              conforms=conforms, stream="corpus")
+            post.append(c)
+            break
 
 
 def _run(ctx, with_model):
@@ -1501,7 +1681,7 @@ def _run(ctx, with_model):
         idx = []
         for case, what, cls, conforms in pending:
             if cls is not None:
-                idx.append(B2.add("cls", cls[1] if cls[1] in ("or", "try") else "", cls[2], cls[3]))
+                idx.append(B2.add("cls", cls[1] if cls[1] in ("or", "try", "defnodes") else "", cls[2], cls[3]))
             else:
                 idx.append(None)
         B2.run()
@@ -1512,6 +1692,8 @@ def _run(ctx, with_model):
                 c = d if d not in (None, "-") else None
                 if c is not None and c != ORDER_CLASS[cls[1]]:
                     c = None
+            if c is None and os.environ.get("C10_DEBUG"):
+                print("DEBUG unclassified", cls and cls[1], i, B2.lines[i] if i is not None else None, B2.out[i] if i is not None else None, file=sys.stderr)
             ctx.candidate(case, what + ": %r / %r" % (case["text_fresh"][:120], case["text_other"][:120]), cls=c,
                           conforms=conforms, stream="e2e")
     else:
